@@ -114,11 +114,16 @@ def swap(x: int, *, a: object, b: object):
 def nxt(x: str, *, a: KB, b: KB):
     LOG.append((5, None))
     return ("nxt", call_next(x, b=b, a=a))
+
+
+def ha(x: str, *, a: KA):
+    LOG.append((6, None))
+    return ("ha",)
 '''
 _KFN = "<vtgen:c04:kw>"
 linecache.cache[_KFN] = (len(_KSRC), None, _KSRC.splitlines(True), _KFN)
 
-KPOOL = ["h1", "h2", "h3", "swap", "nxt"]
+KPOOL = ["h1", "h2", "h3", "swap", "nxt", "ha"]  # ha takes the keyword a only: calls with {a} and with {a, b} alternate
 KVALS = {"A": KA(), "B": KB(), "O": object()}
 
 
@@ -159,6 +164,9 @@ def kw_sigma():
             for b in "OAB":
                 names.append((repr(x), f"a={a}", f"b={b}"))
                 sigma.append(((x,), {"a": KVALS[a], "b": KVALS[b]}))
+    for a in "OAB":
+        names.append(("'s'", f"a={a}"))
+        sigma.append((("s",), {"a": KVALS[a]}))
     return names, sigma
 
 
@@ -166,7 +174,7 @@ def kw_programs(tier):
     import itertools as it
     for L in (2, 3, 4):
         for combo in it.combinations(KPOOL, L):
-            if "swap" in combo or "nxt" in combo:
+            if "swap" in combo or "nxt" in combo or "ha" in combo:
                 yield combo
 
 
